@@ -4,6 +4,7 @@ CONSTANTS
   MaxD = 2
   Depth = 3
   Rich = TRUE
+  Shaped = FALSE
   FormLevel = 0
 INVARIANT InvCoherent
 PROPERTY RefusalIsNoOp
